@@ -10,96 +10,29 @@ import (
 
 func hashOf(s string) []byte { return crypto.Hash([]byte(s)) }
 
-func newStore() *store.Store {
-	cfg := lib.DefaultConfig()
-	cfg.StoreConfig.LSSCompactionInterval = 0
-	sI, err := store.NewStoreInMemory(lib.NewNullLogger(), cfg)
-	if err != nil {
-		panic(err)
-	}
-	return sI.(*store.Store)
-}
-
-func blk(h uint64, tag string, txs ...*lib.TxResult) *lib.BlockResult {
-	return &lib.BlockResult{BlockHeader: &lib.BlockHeader{Height: h, Hash: hashOf(tag), NetworkId: 1}, Transactions: txs}
-}
-
-func show(name string, s lib.RIndexerI, h uint64) {
-	b, err := s.GetBlockByHeight(h)
-	if err != nil {
-		fmt.Println(name, "err", err)
-		return
-	}
-	fmt.Printf("%s: GetBlockByHeight(%d) -> height=%d hash=%x txs=%d\n", name, h, b.BlockHeader.GetHeight(), b.BlockHeader.GetHash(), len(b.Transactions))
-}
-
-func commitBlock(s *store.Store, h uint64, tag string) {
-	s.Set([]byte{1, byte(h)}, []byte(tag))
-	if err := s.IndexBlock(blk(h, tag)); err != nil {
-		panic(err)
-	}
-	if _, err := s.Commit(); err != nil {
-		panic(err)
-	}
-}
-
 func main() {
 	store.VerifPurgeBlockCache()
-	fmt.Println("--- (c) IndexBlock then abandon (Reset): uncommitted block visible")
-	s := newStore()
-	commitBlock(s, 1, "b1")
-	s.IndexBlock(blk(2, "b2-abandoned"))
-	s.Reset() // commit abandoned
-	show("live", s, 2)
-	fmt.Println("version:", s.Version())
+	cfg := lib.DefaultConfig()
+	cfg.StoreConfig.LSSCompactionInterval = 0
+	cfg.StoreConfig.IndexByAccount = false
+	sI, _ := store.NewStoreInMemory(lib.NewNullLogger(), cfg)
+	s := sI.(*store.Store)
+	h := hashOf("tx")
+	tx := &lib.TxResult{Sender: h[:20], Recipient: h[:20], MessageType: "send", Height: 1, Index: 0,
+		Transaction: &lib.Transaction{MessageType: "send", Signature: &lib.Signature{PublicKey: h, Signature: h}, CreatedHeight: 1, Time: 1, Fee: 1, NetworkId: 1, ChainId: 1},
+		TxHash: lib.BytesToString(h)}
+	s.Set([]byte{1, 1}, []byte("x"))
+	s.IndexBlock(&lib.BlockResult{BlockHeader: &lib.BlockHeader{Height: 1, Hash: hashOf("b1"), NetworkId: 1}, Transactions: []*lib.TxResult{tx}})
+	store.VerifPurgeBlockCache() // eviction between IndexBlock and Commit
+	b, _ := s.GetBlockByHeight(1) // the store object reads its own pending height
+	fmt.Println("live before commit: txs =", len(b.Transactions))
+	s.Commit()
+	b, _ = s.GetBlockByHeight(1)
+	fmt.Println("live after commit: txs =", len(b.Transactions))
 	ro, _ := s.NewReadOnly(1)
-	show("ro@1", ro, 2)
-	ro.Discard()
-	commitBlock(s, 2, "b2-real")
-	show("live after real commit", s, 2)
-
-	fmt.Println("--- (b) read-only view at v=1 sees block 2 (height > v) through the cache")
-	ro, _ = s.NewReadOnly(1)
-	show("ro@1", ro, 2)
+	b, _ = ro.GetBlockByHeight(1)
+	fmt.Println("ro@1 after commit: txs =", len(b.Transactions))
 	store.VerifPurgeBlockCache()
-	show("ro@1 (cache purged)", ro, 2)
-	fmt.Println("--- (a) ... and that miss poisoned the cache: the live store now gets an empty block 2")
-	show("live", s, 2)
-	ro.Discard()
-	store.VerifPurgeBlockCache()
-	show("live (cache purged)", s, 2)
-
-	fmt.Println("--- (a') without the purge hook: 64 reads of other heights evict, then a historical view poisons")
-	for i := uint64(1000); i < 1064; i++ {
-		s.GetBlockByHeight(i)
-	}
-	ro, _ = s.NewReadOnly(1)
-	show("ro@1", ro, 2)
-	show("live", s, 2)
-	ro.Discard()
-
-	fmt.Println("--- (d) header-only read caches a block without its transactions")
-	store.VerifPurgeBlockCache()
-	s3 := newStore()
-	tx := &lib.TxResult{Sender: hashOf("s")[:20], Recipient: hashOf("r")[:20], MessageType: "send", Height: 1, Index: 0,
-		Transaction: &lib.Transaction{MessageType: "send", Signature: &lib.Signature{PublicKey: hashOf("pk"), Signature: hashOf("sig")}, CreatedHeight: 1, Time: 1, Fee: 1, NetworkId: 1, ChainId: 1},
-		TxHash: lib.BytesToString(hashOf("tx1"))}
-	s3.Set([]byte{1, 1}, []byte("x"))
-	if err := s3.IndexBlock(blk(1, "d1", tx)); err != nil {
-		fmt.Println("IndexBlock err", err)
-	}
-	s3.Commit()
-	show("s3 (from IndexBlock cache)", s3, 1)
-	store.VerifPurgeBlockCache()
-	hb, _ := s3.GetBlockHeaderByHeight(1)
-	fmt.Println("header read txs:", len(hb.Transactions))
-	show("s3 after header-only read", s3, 1)
-	store.VerifPurgeBlockCache()
-	show("s3 (cache purged)", s3, 1)
-
-	fmt.Println("--- (f) a second Store (another database) in the same process")
-	store.VerifPurgeBlockCache()
-	s2 := newStore()
-	show("s  (db A)", s, 1)
-	show("s2 (db B, empty)", s2, 1)
+	b, _ = s.GetBlockByHeight(1)
+	fmt.Println("after purge: txs =", len(b.Transactions))
 }
